@@ -99,7 +99,8 @@ Record INV (c : cfg) (s : st) : Prop := mkINV {
           asrt s = false /\ (is_conf (ph s) = true -> f_tr (sa s) = f_tr (sb s));
   i_asrt : asrt s = true -> f_tr (sa s) = false;
   i_both : fix_crossed c = true -> f_eof (sa s) = true -> f_eof (sb s) = true ->
-           f_tr (sa s) = false /\ f_tr (sb s) = false
+           f_tr (sa s) = false /\ f_tr (sb s) = false;
+  i_ceA1 : f_eof (sb s) = true -> f_tr (sa s) = true -> count_eof (outA s) = 1%nat
 }.
 
 Lemma inv_st0 c : INV c st0.
@@ -180,8 +181,8 @@ Variable c : cfg.
 
 Ltac start s H o :=
   intros H; destruct s as [[ta pa ba ea] [tb pb bb eb] p oa ob la lb ia ib asr];
-  destruct H as [H1 H2 H3 H4 H5 H6 H7 H8 H9 H10 H11 H12 H13 H14 H15 H16 H17 H18 H19 H20 H21];
-  cbn in H1, H2, H3, H4, H5, H6, H7, H8, H9, H10, H11, H12, H13, H14, H15, H16, H17, H18, H19, H20, H21;
+  destruct H as [H1 H2 H3 H4 H5 H6 H7 H8 H9 H10 H11 H12 H13 H14 H15 H16 H17 H18 H19 H20 H21 H22];
+  cbn in H1, H2, H3, H4, H5, H6, H7, H8, H9, H10, H11, H12, H13, H14, H15, H16, H17, H18, H19, H20, H21, H22;
   subst pa tb bb; destruct c as [fc fl fr]; cbn in *.
 
 Lemma inv_dataA s d : INV c s -> legal s (DataA d) = true -> INV c (apply c s (DataA d)).
